@@ -203,6 +203,8 @@ def all_runs(ctx):
 
         collect(I, I.run(f.one(path), [ClosureV(path, caps, "coroutine"), P("cx")], seeds=seeds3))
     for path, args in (("<" + CLIENT + " as std::ops::Drop>::drop", ["self"]), (CLIENT + "::new", ["store", "socket", "addr", "config", "limit_connections"]), (CONN + "::new", ["socket", "item_size_limit"])):
+        if path.endswith("Drop>::drop") and path not in f.bodies:
+            continue  # a Client without a Drop impl has no drop code to examine (C17.R2 decides whether that is acceptable)
         I = Interp(f, models=models)
         collect(I, I.run(f.one(path), [P(a) for a in args]))
     ctx._cache["c10_runs"] = (status, descr, npaths[0])
